@@ -187,6 +187,34 @@ Proof.
   unfold count_op in *. cbn [filter]. destruct (is_reset o); simpl in *; lia.
 Qed.
 
+(* binding reuses a negotiated format *)
+Lemma validate_no_406 st r c f : c_fmt r = Some f -> existsb (Nat.eqb 406) (fst (validate st r c)) = false.
+Proof.
+  intros Hf. unfold validate. rewrite Hf.
+  repeat break_match; simpl; try reflexivity;
+    repeat match goal with H : (_, _) = (_, _) |- _ => inversion H; clear H; subst end; simpl; try reflexivity; try discriminate.
+Qed.
+
+Lemma bind_reuses_format_trace st : forall ops s seen_fmt seen_bind,
+  (seen_fmt = true -> c_fmt (s_req s) <> None) ->
+  (seen_bind = false -> c_bound (s_req s) = None) ->
+  bind_reuses_format seen_fmt seen_bind (trace st ops s) = true.
+Proof.
+  induction ops as [|o r IH]; intros s sf sb Hf Hb; cbn [trace]; [reflexivity|].
+  destruct (step st s o) as [[s' x] same] eqn:E. cbn [bind_reuses_format].
+  unfold step in E. open_state s.
+  destruct o; repeat break_match; inversion E; subst; clear E; cbn [bind_reuses_format];
+    try (apply IH; simpl; intros; auto; try congruence; fail).
+  all: try (apply andb_true_iff; split; [| apply IH; simpl; intros; auto; try congruence]).
+  all: try (destruct sf; destruct sb; simpl; try reflexivity).
+  all: try (specialize (Hb eq_refl); congruence).
+  all: try (match goal with H : _ && _ = true |- _ => simpl in H; discriminate H end).
+  destruct cf as [f0|]; [|exfalso; apply (Hf eq_refl); reflexivity].
+  match goal with H : validate ?st0 ?r0 ?c0 = _ |- _ =>
+    pose proof (validate_no_406 st0 r0 c0 f0 eq_refl) as V; rewrite H in V end.
+  cbn [fst] in V. apply negb_true_iff. exact V.
+Qed.
+
 (* every history of the model satisfies the property's predicate over observed histories *)
 Theorem trace_memo_ok st ops :
   let s := run st ops state0 in
@@ -194,6 +222,7 @@ Theorem trace_memo_ok st ops :
 Proof.
   cbv zeta. unfold memo_ok.
   rewrite trace_length, Nat.eqb_refl, reuse_ok_trace. cbn [andb].
+  rewrite (bind_reuses_format_trace st ops state0 false false) by (intros; try discriminate; reflexivity). cbn [andb].
   pose proof (bind_once st ops) as Hb. apply Nat.leb_le in Hb. rewrite Hb. cbn [andb].
   apply andb_true_iff; split.
   - destruct (existsb _ _) eqn:Ea; [reflexivity|]. apply Nat.leb_le.
